@@ -542,6 +542,29 @@ def nontrivial(sig, call, py):
 # generators
 # ----------------------------------------------------------------------------------------------
 PNAMES = ["a", "b", "c", "d", "e"]
+# other name pools for the parameters: Python's SOFT keywords (type, match, case, _) are ordinary identifiers - legal parameter
+# names and legal `key=value` keys; and `self` / `context` as names of LATER parameters (the first two are then called node, ctx)
+SOFT_POOL = ["type", "match", "case", "_", "e"]
+SELFCTX_POOL = ["self", "context", "type", "d", "e"]
+
+
+def rename_sig(sig, pool, lead_names=None):
+    m = dict(zip(PNAMES, pool))
+    out = dict(sig, po=[[m[n], d] for n, d in sig["po"]], pk=[[m[n], d] for n, d in sig["pk"]], ko=[[m[n], d] for n, d in sig["ko"]])
+    if lead_names:
+        out["names"] = list(lead_names)
+    return out
+
+
+def vary_names(sig, idx):
+    """deterministic rotation of the name pools over the enumerated shapes"""
+    if idx % 3 == 1:
+        return rename_sig(sig, SOFT_POOL)
+    if idx % 11 == 5:
+        return rename_sig(sig, SELFCTX_POOL, ["node", "ctx"])
+    if idx % 5 == 0:
+        return dict(sig, names=["node", "context"])
+    return sig
 
 
 def all_sigs(n):
@@ -569,7 +592,7 @@ def alphabet(sig, rich=False, nonstr=False):
     al = [("pos",)] + [("kw", n) for n in names] + [("kw", "u"), ("kw", "data-x"), ("kw", "class"), ("sl", 2), ("sd", 0)]
     if rich:
         al += [("kw", "self"), ("kw", "context"), ("kw", sig["names"][0]), ("sl", 0), ("sl", 1), ("sd", 1), ("sd", 2), ("kw", "@y"),
-               ("kw", "for"), ("kw", "x1"), ("kw", "_")]
+               ("kw", "for"), ("kw", "x1"), ("kw", "_"), ("kw", "type"), ("kw", "match"), ("kw", "case"), ("kw", "None"), ("kw", "True")]
         if sig["va"]:
             al.append(("kw", sig["va"]))
         if sig["vk"]:
@@ -642,8 +665,13 @@ def random_sig(rng, maxn=5):
         ko = [[names[npos + j], (901 + npos + j) if rng.random() < 0.5 else None] for j in range(nko)]
         s = mk_sig(po=pos[:npo], pk=pos[npo:], va=rng.choice([None, "ar"]), ko=ko, vk=rng.choice([None, "kw"]),
                    lead=2 if npo else rng.choice([0, 1, 2]))
-    if rng.random() < 0.3:
+    r = rng.random()
+    if r < 0.3:
         s = dict(s, names=["node", "context"])
+    elif r < 0.5:
+        s = rename_sig(s, SOFT_POOL)
+    elif r < 0.6:
+        s = rename_sig(s, SELFCTX_POOL, ["node", "ctx"])
     if rng.random() < 0.06 and all(d is not None for _, d in s["po"] + s["pk"]):
         s = dict(s, lead_defaults=rng.choice([[None, 801], [800, 801]]))     # defaults reaching back into self / context
     return s
@@ -835,8 +863,7 @@ def run(tier, seed):
     for n, maxlen in plan:
         for sig in all_sigs(n):
             idx += 1
-            if idx % 5 == 0:
-                sig = dict(sig, names=["node", "context"])
+            sig = vary_names(sig, idx)
             jobs.append((sig, list(exhaustive_calls(sig, maxlen)), "exh-n%d-len<=%d" % (n, maxlen), idx))
 
     # ---- 1b. spread mappings with a key that is not a str (None / a tuple): all shapes n<=2 x sequences<=2 around them ----
@@ -854,6 +881,8 @@ def run(tier, seed):
     # ---- 1c. structured, mostly valid longer calls on every shape n<=3 (n<=4 thorough), fast path and fallback ----
     for n in range(1, 5 if thorough else 4):
         for sig in all_sigs(n):
+            idx += 1
+            sig = vary_names(sig, idx)
             calls = list(structured_calls(sig))
             for v in (0, 2):        # BaseNode subclass (fast path), callable object (fallback)
                 jobs.append((sig, calls, "structured-n%d" % n, v))
@@ -907,6 +936,17 @@ def run(tier, seed):
         chk.disagree("model != %s followed by the call of render()" % ("_validate_params_with_code" if use_code else "_validate_params_with_signature"),
                      {"kind": "validator", "use_code": use_code, "sig": sig, "params": params, "extra": extra, "impl": r})
 
+    # ---- 4. the classification of keys the runnable model uses (py_special) against `not isidentifier() or iskeyword()`:
+    #         hard keywords only - soft keywords (type, match, case, _) are ordinary identifiers ----
+    words = sorted(set(keyword.kwlist) | set(getattr(keyword, "softkwlist", [])) |
+                   {"a", "_", "__", "x1", "1x", "data-x", "", "self", "context", "Type", "class_", "_class", "@y", "a b", ":href", "a.b", "none", "true",
+                    "print", "exec", "nonlocal_", "A9", "9", "-"})
+    wterms = ["(%s, %s)" % (C.cstr(w), C.cbool(is_special(w))) for w in words]
+    for w in words:
+        chk.count(("special", w), False, kind="special-classification")
+    for i in C.coq_eval_cases("C11", "spec", IMPORTS, "str * bool", "(fun x : str * bool => Bool.eqb (py_special (fst x)) (snd x))", wterms):
+        chk.disagree("py_special (model) != `not key.isidentifier() or keyword.iskeyword(key)` (Python)", {"kind": "special", "key": words[i],
+                                                                                                              "python": is_special(words[i])})
     lap("coq-eval-validators")
     chk.extra["phase_wall_s"] = phases
     chk.assumptions = [
